@@ -176,7 +176,7 @@ func (g *G) Float(v string) X {
 // Str builds a string literal; content must not contain quotes or backslashes unless escape handling is intended.
 func (g *G) Str(content string) X {
 	g.P.Forbidden[content] = true
-	lit := "'" + strings.ReplaceAll(content, "'", "''") + "'"
+	lit := "'" + strings.ReplaceAll(strings.ReplaceAll(content, "\\", "\\\\"), "'", "''") + "'"
 	return X{T: dump.N("LiteralValue", "Value", content, "Type", "string"), Toks: one(sym(lit)), Prec: PrecPrimary}
 }
 func (g *G) Bool(b bool) X {
@@ -586,7 +586,7 @@ func (g *G) col() X {
 func (g *G) lit() X {
 	switch g.R.Intn(8) {
 	case 0:
-		return g.Str(g.pick([]string{"x", "hello world", "it's", "", "select", "a,b", "100%", "order by", "left join", "GROUP BY", "full join", "grouping sets", "union all", "is not null"}))
+		return g.Str(g.pick([]string{"x", "hello world", "it's", "", "select", "a,b", "100%", "order by", "left join", "GROUP BY", "full join", "grouping sets", "union all", "is not null", "first line  \nsecond line", "tab\there", " \n ", "back\\slash"}))
 	case 1:
 		return g.Float(g.pick([]string{"1.5", "0.25", "3.14", "1e5", "2.5E-3"}))
 	case 2:
